@@ -310,14 +310,14 @@ func genC02(x *Ctx) {
 	// (3) truncations at every offset and single bit flips of valid packets
 	nv := x.N(60, 4000)
 	for i := 0; i < nv; i++ {
-		var base []byte
-		x.Case(func(c *Case) { // the valid packet itself; also fixes `base` for this worker only
+		x.Case(func(c *Case) { // a valid packet as it is
 			buf := c02Valid(c.R, 24)
 			tagC02(c, buf, "valid")
 			observeC02(c, buf, c02Rich(c.R), true)
 		})
-		// every worker must see the same packet: regenerate it from a PRNG that depends on i only
-		base = c02Valid(newRand(x.Seed, "c02.parse/base", i), 24)
+		// the packet that is cut and flipped: every worker must see the same one (the case
+		// indices depend on its length), so it comes from a PRNG that depends on (seed, i) only
+		base := c02Valid(newRand(x.Seed, "c02.parse/base", i), 24)
 		for cut := 0; cut < len(base); cut++ {
 			cut := cut
 			x.Case(func(c *Case) {
@@ -412,9 +412,25 @@ func genC02(x *Ctx) {
 				w = 65535
 			}
 			buf[at+2], buf[at+3] = byte(w>>8), byte(w)
-			if r.Bool() { // make the block walkable: zero fill with a few elements
-				for k := at + 4; k < total && k < at+4+4*w; k++ {
+			if r.Bool() { // make the block walkable: zero fill, then a few elements at random places
+				end := at + 4 + 4*w
+				if end > total {
+					end = total
+				}
+				for k := at + 4; k < end; k++ {
 					buf[k] = 0
+				}
+				for j := r.Intn(8); j > 0 && end-at > 300; j-- {
+					pos := at + 4 + r.Intn(end-at-4-260)
+					if buf[at] == 0x10 { // two-byte form: id, length, value
+						ln := r.Pick(0, 1, 255, r.Intn(256))
+						buf[pos], buf[pos+1] = byte(r.Range(1, 255)), byte(ln)
+						copy(buf[pos+2:pos+2+ln], r.Bytes(ln))
+					} else { // one-byte form (also harmless noise in a legacy block)
+						ln := r.Range(1, 16)
+						buf[pos] = byte(r.Range(1, 14)<<4 | (ln - 1))
+						copy(buf[pos+1:pos+1+ln], r.Bytes(ln))
+					}
 				}
 			}
 			tagC02(c, buf, "long")
